@@ -41,14 +41,14 @@ class PumpCondition(object):
         self.lock.release()
 
     def wait(self, timeout=None):
+        hook, self.pair.wait_hook = self.pair.wait_hook, None
+        if hook is not None:
+            hook()          # another application thread / the application at the other controller acts while this call waits
+            return
         self.pair.waits += 1
         if self.loops and self.pair.waits > 1:
             raise Unmodelled("wait() loop without progress")
-        hook, self.pair.wait_hook = self.pair.wait_hook, None
-        if hook is not None:
-            hook()          # the application at the other controller acts while this call waits
-        else:
-            self.pair.pump()
+        self.pair.pump()
 
     def notify(self, n=1):
         pass
@@ -98,6 +98,8 @@ class Pair(object):
         self.waits = 0
         self.wait_hook = None   # what the peer application does during the next wait()
         self.observer = None    # callback(sender side, receiver side, wire PDU, ids of sockets whose queue grew)
+        self.observer_exc = None
+        self.sdres_before = None
 
     # ------------------------------------------------------------ link
     def would_hang(self, y, q):
@@ -122,11 +124,16 @@ class Pair(object):
         if self.would_hang(y, q):
             raise Unmodelled("F39")
         before = self.snapshot(y) if self.observer else None
+        self.sdres_before = list(self.ctl[y].sap[1].sdres) if self.observer else None
         self.ctl[y].dispatch(q)
         if self.observer:
             after = self.snapshot(y)
             grown = [i for i in range(len(after)) if after[i] > (before[i] if i < len(before) else 0)]
-            self.observer(x, y, q, grown)
+            try:
+                self.observer(x, y, q, grown)
+            except Exception as e:  # noqa   (a defect of the oracle must not look like an exception of nfcpy)
+                if self.observer_exc is None:
+                    self.observer_exc = e
         return True
 
     def snapshot(self, y):
@@ -180,6 +187,16 @@ class Pair(object):
             return "ok %d" % self.adopt(x, c.socket(typ))
         if k == "Q":
             return "ok %d" % c.resolve(_unhex(t[2]))
+        if k == "QQ":
+            return "ok [%s]" % ",".join("%d" % a for a in self.resolve_many(c, _unlist(t[2], _unhex)))
+        if k == "N":
+            # a raw access point sends a service name lookup PDU with arbitrary SDREQ / SDRES content
+            s = self.socks[x][int(t[2])]
+            if self.kind(s) != "raw":
+                raise Unmodelled("sendpdu on non-raw")
+            q = self.pdu.ServiceNameLookup(1, 1, sdreq=_unlist(t[3], _unreq), sdres=_unlist(t[4], _unres))
+            r = c.sendto(s, q, None, L.MSG_DONTWAIT)
+            return "ok true" if r else "ok false"
         if k == "M":
             return "ok true" if self.xfer(x) else "ok false"
         s = self.socks[x][int(t[2])]
@@ -252,6 +269,37 @@ class Pair(object):
             return "ok"
         raise ValueError("unknown op %r" % (t,))
 
+    def resolve_many(self, c, names):
+        """len(names) application threads call c.resolve(name) and all of them wait before the link moves:
+        the wait() of call i lets call i+1 start (a call that finds its name in the cache returns at once and
+        the next one starts after it); the last waiting call runs the link.  This is one legal schedule of the
+        real threads, executed on one thread."""
+        sd = c.sap[1]
+        if sum(1 for n in names if n not in sd.snl) > len(sd.tids):
+            raise Unmodelled("no transaction identifier left")
+        res = [None] * len(names)
+
+        def chain(i, waiting):
+            while i < len(names):
+                entered = [False]
+
+                def hook(i=i):
+                    entered[0] = True
+                    chain(i + 1, True)
+                self.wait_hook = hook
+                try:
+                    res[i] = c.resolve(names[i])
+                finally:
+                    self.wait_hook = None
+                if entered[0]:
+                    return          # the calls after i ran inside the wait of call i
+                i += 1              # call i returned without waiting: the next thread starts now
+            if waiting:
+                self.waits += 1
+                self.pump()
+        chain(0, False)
+        return res
+
     # ------------------------------------------------------------ state
     def dump(self, x):
         c = self.ctl[x]
@@ -272,9 +320,14 @@ class Pair(object):
                                                      len(s.recv_queue), len(s.send_queue), s.recv_buf))
         sd = c.sap[1]
         cache = ["%s=%d" % (hx(n), a) for n, a in sd.snl.items()]
-        return "saps=%s snl=%s socks=%s cache=%s sd=%d:%d:%d:%d:%d" % (
+        tids = list(sd.tids)
+        return "saps=%s snl=%s socks=%s cache=%s sd=%d:%d:%d:%d:%d tids=%s/%s sent=%s sdreq=%s sdres=%s" % (
             ",".join(saps), ",".join(names), ",".join(socks), ",".join(cache),
-            len(sd.tids), len(sd.sent), len(sd.sdreq), len(sd.sdres), len(sd.dmpdu))
+            len(sd.tids), len(sd.sent), len(sd.sdreq), len(sd.sdres), len(sd.dmpdu),
+            ".".join(str(t) for t in tids[:3]), ".".join(str(t) for t in tids[-3:]),
+            ",".join("%d:%s" % (t, hx(n)) for t, n in sd.sent.items()),
+            ",".join("%d:%s" % (t, hx(n)) for t, n in sd.sdreq),
+            ",".join("%d:%d" % (t, a) for t, a in sd.sdres))
 
     def run(self, ops):
         """run a history; after an abort the remaining operations are skipped"""
@@ -290,3 +343,17 @@ class Pair(object):
 
 def _unhex(h):
     return b"" if h == "-" else bytes.fromhex(h)
+
+
+def _unlist(s, f):
+    return [] if s == "." else [f(e) for e in s.split(",")]
+
+
+def _unreq(e):
+    t, h = e.split(":")
+    return (int(t), _unhex(h))
+
+
+def _unres(e):
+    t, a = e.split(":")
+    return (int(t), int(a))
